@@ -12,8 +12,8 @@
 //!    COALESCE (lazy), NULLIF.
 //!  * integer arithmetic wraps for + - * (the engine's default), `/` and `%`
 //!    truncate towards zero and fail on a zero divisor.
-//!  * floats follow IEEE-754 arithmetic; comparisons use the IEEE total order
-//!    (the engine's documented choice). Any NaN makes the reference decline
+//!  * floats follow IEEE-754 arithmetic; comparisons use the numeric order
+//!    with +0.0 = -0.0 (SQL semantics). Any NaN makes the reference decline
 //!    (`RefErr::Declined`) instead of guessing a sign bit.
 //!  * CAST fails where TRY_CAST gives NULL.
 //!  * LIKE / ILIKE with `%`, `_` and `\` escape; regular expressions by a small
@@ -662,7 +662,8 @@ pub fn compare(a: &V, b: &V) -> Result<Option<Ordering>, RefErr> {
             if x.is_nan() || y.is_nan() {
                 return declined("NaN");
             }
-            x.total_cmp(&y)
+            // SQL semantics: +0.0 and -0.0 are equal; otherwise the usual order
+            if x == y { Ordering::Equal } else { x.total_cmp(&y) }
         }
         Pair::Str(x, y) => x.as_bytes().cmp(y.as_bytes()),
         Pair::Bool(x, y) => x.cmp(&y),
